@@ -556,6 +556,8 @@ def reserved_reason(backend, name, spec):
     """why `name` is not a legal non-reserved identifier of the target language, or None"""
     if name in spec["_set_" + backend]:
         return "keyword"
+    if backend in ("hlsl", "glsl") and not name.isascii():
+        return "non-ascii"          # HLSL / GLSL identifiers are [A-Za-z_][A-Za-z0-9_]*
     if backend == "hlsl" and name.lower() in spec["_set_hlsl_ci"]:
         return "case-insensitive-keyword"
     if backend == "glsl":
@@ -780,10 +782,20 @@ def resolve(toks):
         k, t = toks[i]
         if i in fstart:
             name, j, params = fstart[i]
-            refs(stmt_start, i, [])                     # return type
+            pscope = {}
+            # template<typename A, ...> before the function: A is declared in the function's scope
+            q = stmt_start
+            if q < i and toks[q] == ("id", "template") and q + 1 < i and toks[q + 1] == ("op", "<"):
+                q += 2
+                while q < i and toks[q] != ("op", ">"):
+                    if toks[q][0] == "id" and toks[q - 1] in (("id", "typename"), ("id", "class")):
+                        pscope[toks[q][1]] = q
+                        res[q] = q
+                        skip.add(q)
+                    q += 1
+            refs(stmt_start, i, [pscope])               # return type
             res[i] = i
             module[name] = i
-            pscope = {}
             # parameters: split at top-level commas
             a = i + 2
             pd = 0
@@ -860,4 +872,25 @@ def resolution_diffs(bt, nt):
     for i in sorted(set(rb) | set(rn)):
         if rb.get(i) != rn.get(i):
             out.append((i, rb.get(i), rn.get(i)))
+    return out
+
+
+def member_diffs(bt, nt):
+    """member accesses (identifier after '.' or '->'): where the baseline names a member that some struct /
+    block of the baseline declares, the variant must name a member that some struct / block of the variant
+    declares.  -> list of (index, baseline spelling, variant spelling)"""
+    def declared_members(toks):
+        out = set()
+        module, blocks = scope_scan(toks)
+        for where, names in blocks:
+            if where.startswith("struct ") or where.startswith("block "):
+                out |= set(names)
+        return out
+    db = declared_members(bt)
+    dn = declared_members(nt)
+    out = []
+    for i in range(1, len(bt)):
+        if bt[i][0] == "id" and bt[i - 1] in (("op", "."), ("op", "->")):
+            if bt[i][1] in db and nt[i][1] not in dn:
+                out.append((i, bt[i][1], nt[i][1]))
     return out
